@@ -180,6 +180,9 @@ def post(g):
                     v = g.formal_value(c, a)
                 attrs.append([["Q", "prov", I.PROV.uri, a], v])
         g.emit(["NewRecord", c, kind, ident, attrs])
+    if rng.random() < 0.4:
+        g.op_get()                       # a look-up (possibly for an identifier another container holds), then more records
+        g.op_new_record()
     if rng.random() < 0.5:
         di = str(rng.randrange(len(g.im.docs)))
         g.emit(["Unified", di])
@@ -219,6 +222,22 @@ def fixed_programs():
                   ["NewRecord", c, "Entity", ["S", "ex:e"], [[["S", "prov:type"], vals[a]]]],
                   ["Unified", "0"]]
             out.append(p)
+    # look-ups that find nothing in a bundle (the identifier is held by the document, or by a sibling bundle) must leave
+    # nothing behind there: the bundle then asserts records of the same kind under that identifier and is unified
+    for kind in ("Entity", "Activity"):
+        p = [["NewDoc"], ["AddNs", ["d", "0"], "ex", EXU],
+             ["NewRecord", ["d", "0"], kind, ["S", "ex:x"], [[["S", "ex:doc"], ["int", "1"]]]],
+             ["NewRecord", ["d", "0"], kind, ["S", "ex:x"], [[["S", "ex:doc2"], ["int", "2"]]]],
+             ["NewBundle", "0", ["S", "ex:b1"]], ["NewBundle", "0", ["S", "ex:b2"]],
+             ["NewRecord", ["b", "0", "1"], kind, ["S", "ex:x"], [[["S", "ex:sibling"], ["int", "3"]]]],
+             ["GetRecord", ["b", "0", "0"], ["S", "ex:x"]], ["GetRecord", ["b", "0", "0"], ["Q", "ex", EXU, "x"]],
+             ["GetRecord", ["b", "0", "0"], ["S", EXU + "x"]],
+             ["NewRecord", ["b", "0", "0"], kind, ["S", "ex:x"], [[["S", "ex:own"], ["int", "4"]]]],
+             ["Unified", "0"],
+             ["GetRecord", ["b", "0", "0"], ["S", "ex:x"]],
+             ["NewRecord", ["b", "0", "0"], kind, ["S", "ex:x"], [[["S", "ex:own2"], ["int", "5"]]]],
+             ["Unified", "0"]]
+        out.append(p)
     # a history on one object: unified(), then a record of a merged group (or a singleton) is changed in place
     # (add_attributes, add_asserted_type, set_time — none of them goes through _add_record), then unified() again:
     # a new attribute must be in the union, a new conflict must raise
